@@ -5,6 +5,7 @@
 //   harness asynctask <reps> <type>  AsyncTask<T> over the same types + lifetime-instrumented payload
 //   harness destroy <reps>       destroy an AsyncTask while its task still runs
 //   harness parkburst <T> <N>    T tasking threads, T-1 workers parked, burst of N > pipe size from the caller
+//   harness nested <T> <iters>   scheduled closure schedules a same-type closure and waits inside the tasking system
 //   harness onethread            tasking system initialised with 1 thread, one schedule(), no waiting
 #include <algorithm>
 #include <atomic>
@@ -440,12 +441,91 @@ static int mode_parkburst(int T, int n)
   _exit(0);
 }
 
+// ------------------------------------------ a scheduled closure that waits inside the tasking system
+// A scheduled OUTER closure of a fixed functor type owns heap state with a canary, schedules an INNER closure of
+// the SAME functor type and then blocks in a tasking wait (AsyncTask<int>::get() or a nested parallel_for), so that
+// its thread may help run pending tasks — among them INNER — while OUTER's ExecuteRange is still on the stack.
+// Afterwards OUTER checks its own canary / heap state.  Neither closure may be released while it runs.
+namespace nested {
+  static std::atomic<int> outerRuns{0}, innerRuns{0}, outerDone{0}, corrupt{0};
+  static const unsigned LIVE = 0xA11CE5u;
+  struct Canary
+  {
+    volatile unsigned magic;
+    Canary() : magic(LIVE) {}
+    Canary(const Canary &) : magic(LIVE) {}
+    Canary &operator=(const Canary &) { return *this; }
+    ~Canary() { magic = 0xDEADu; }
+  };
+  struct Job
+  {
+    int role;       // 0 inner, 1 outer
+    int waitkind;   // 0 AsyncTask::get, 1 parallel_for
+    std::vector<int> heap;
+    Canary canary;
+    Job(int r, int w, int n) : role(r), waitkind(w), heap(n, n) {}
+    void operator()() const
+    {
+      if (role == 0) {
+        long s = 0;
+        for (int x : heap) s += x;
+        if (canary.magic != LIVE || s != (long)heap.size() * (long)heap.size()) ++corrupt;
+        ++innerRuns;
+        return;
+      }
+      ++outerRuns;
+      if (waitkind == 0) {
+        AsyncTask<int> sub([]() { sleep_ms(1); return 5; });
+        schedule(Job(0, waitkind, 8));
+        if (sub.get() != 5) ++corrupt;
+      } else {
+        schedule(Job(0, waitkind, 8));
+        std::atomic<int> pf{0};
+        parallel_for(16, [&](int) { pf++; });
+        if (pf.load() != 16) ++corrupt;
+      }
+      // this closure (the task object owning it) must still be intact
+      if (canary.magic != LIVE) ++corrupt;
+      long sum = 0;
+      for (size_t i = 0; i < heap.size(); ++i) sum += heap[i];
+      if (sum != (long)heap.size() * (long)heap.size()) ++corrupt;
+      ++outerDone;
+    }
+  };
+}
+static int mode_nested(int T, int iters)
+{
+  using namespace nested;
+  initTaskingSystem(T);
+  int done_iters = 0;
+  for (int w = 0; w < 2; ++w) {
+    int base_o = outerDone.load(), base_i = innerRuns.load(), base_r = outerRuns.load(), base_c = corrupt.load();
+    int completed = 0;
+    for (int i = 1; i <= iters; ++i) {
+      schedule(Job(1, w, 64));
+      auto t0 = clk::now();
+      while ((outerDone.load() < base_o + i || innerRuns.load() < base_i + i) && ms_since(t0) < 5000)
+        sleep_ms(1);
+      if (outerDone.load() < base_o + i || innerRuns.load() < base_i + i)
+        break;
+      completed = i;
+    }
+    sleep_ms(30);
+    printf("NESTED T=%d wait=%s iters=%d completed=%d outer=%d inner=%d outer_done=%d corrupt=%d\n", T, w == 0 ? "asynctask_get" : "parallel_for",
+        iters, completed, outerRuns.load() - base_r, innerRuns.load() - base_i, outerDone.load() - base_o, corrupt.load() - base_c);
+    fflush(stdout);
+    done_iters += completed;
+  }
+  _exit(0);   // verdict printed; no scheduler shutdown (see parkburst)
+}
+
 int main(int argc, char **argv)
 {
   if (argc < 2) return 2;
   std::string m = argv[1];
   int n = argc > 2 ? atoi(argv[2]) : 1;
   if (m == "onethread") return mode_onethread();
+  if (m == "nested") return mode_nested(n, argc > 3 ? atoi(argv[3]) : 8);
   if (m == "parkburst") return mode_parkburst(n, argc > 3 ? atoi(argv[3]) : 300);
   int nt = 4;
   initTaskingSystem(nt);
